@@ -112,6 +112,12 @@ def eval_matrix(m, aliased=False):
         viols.append(Viol(base + '|wrong-truthiness', sc, consistent, lib.describe(truthy),
                           'solve(m) truthiness %r but system is %s' % (truthy, 'consistent' if consistent else 'inconsistent')))
         return cell, viols
+    # the verdict of one Solution object is stable: asking again (as `if sol: ... sol()` does) gives the same answer
+    again = [lib.call(bool, sol), lib.call(bool, sol)]
+    if any(t is not consistent for t in again):
+        viols.append(Viol(base + '|truthiness-changes-when-asked-again', sc, [consistent] * 3, [lib.describe(truthy)] + [lib.describe(t) for t in again],
+                          'bool(sol) evaluated three times on the same Solution object'))
+        return cell, viols
     if not consistent:
         return cell, viols
     want = unknowns - rk
